@@ -212,6 +212,47 @@ func H_C07_tounicode_cmap() {
 	vReach("end")
 }
 
+// H_C07_tounicode_wide_codes: codes of three and four bytes (CJK code spaces such as EUC, whose first byte is >= 0x80)
+// decode by the CMap like short ones.
+//
+//symgo:harness prop=C07 kernel=K3-tounicode-wide
+//symgo:redirect github.com/tsawler/tabula/font.NormalizeUnicode vIdentityNFC
+//symgo:desc code space of 3 or 4 bytes (enumerated); one bfchar and one 3-code bfrange whose codes have symbolic first two hex digits (any value, so the first byte ranges over 00..FF) and fixed remaining digits; BMP targets fixed; the code string is the bfchar code followed by one code of the range (offset enumerated 0..2): the result is the bfchar target followed by range target + offset
+func H_C07_tounicode_wide_codes() {
+	width := vAnyIntIn(3, 4)
+	tail1, tail2 := "A1A1", "B1B0"
+	cs := "<000000> <FFFFFF>"
+	if width == 4 {
+		tail1, tail2 = "A1A1A1", "B1B1B0"
+		cs = "<00000000> <FFFFFFFF>"
+	}
+	prog := []byte("/CIDInit /ProcSet findresource begin 12 dict begin begincmap\n1 begincodespacerange\n" + cs + "\nendcodespacerange\n1 beginbfchar\n<")
+	var h1, h2 uint32
+	prog, h1 = vHex(prog, hexAny, hexAny)
+	prog = append(prog, (tail1 + "> <4E00>\nendbfchar\n1 beginbfrange\n<")...)
+	r0 := len(prog)
+	prog, h2 = vHex(prog, hexAny, hexAny)
+	prog = append(prog, tail2...)
+	lo := append([]byte{}, prog[r0:]...)
+	prog = append(prog, "> <"...)
+	prog = append(prog, lo[:len(lo)-1]...)
+	prog = append(prog, "2> <3042>\nendbfrange\nendcmap"...)
+	cm, err := ParseToUnicodeCMap(&core.Stream{Dict: core.Dict{}, Data: prog})
+	vAssert("cmap-parses", err == nil && cm != nil)
+	k := vAnyIntIn(0, 2)
+	var codes []byte
+	if width == 3 {
+		codes = []byte{byte(h1), 0xA1, 0xA1, byte(h2), 0xB1, byte(0xB0 + k)}
+	} else {
+		codes = []byte{byte(h1), 0xA1, 0xA1, 0xA1, byte(h2), 0xB1, 0xB1, byte(0xB0 + k)}
+	}
+	f := NewFont("F1", "Helvetica", "Type1")
+	f.ToUnicodeCMap = cm
+	got := f.DecodeString(codes)
+	vAssert("wide-codes-decode-by-the-cmap", got == "\u4e00"+string(rune(0x3042+k)))
+	vReach("end")
+}
+
 // H_C07_tounicode_precedence: a font with a ToUnicode CMap decodes by it even when the code string happens to start with
 // the bytes of a UTF-16 byte-order mark, and even when an Encoding is present.
 //
